@@ -28,6 +28,7 @@ import Scalibr.Model.Parsers.Gemfile
 import Scalibr.Model.Parsers.Dpkg
 import Scalibr.Model.Parsers.Requirements
 import Scalibr.Model.Lockfiles
+import Scalibr.Spec.Lockfiles
 import Scalibr.Spec.Parsers
 open Scalibr Scalibr.Wire Scalibr.Parsers Scalibr.Lockfiles
 
@@ -85,7 +86,20 @@ partial def parseForest (n : Nat) (ts : List String) : Option (List PackageLock.
         | _, _ => none
       | _ => none
 
-def runDoc (fmt doc : String) : Option (Outcome (List (List Char × List Char))) :=
+abbrev Pairs := List (List Char × List Char)
+
+def nvPairs (ps : List NV) : Pairs := ps.map fun p => (p.name, p.version)
+
+/-- `hex(id):hex(resolved):hex(type)` entries of one target framework -/
+def tripleList (s : String) : Option (List (Str × Str × Str)) :=
+  (listOf s ",").mapM fun e => match fieldsOf e with
+    | some [n, v, t] => some (n, v, t)
+    | some [n, v] => some (n, v, [])
+    | _ => none
+
+/-- model outcome on the decoded document and, where the Spec has an executable right-hand side (Spec/Lockfiles.lean:
+`PackageLock.expected`, `Pipfile.expected`, `PackagesLock.expectedT`, `GoMod.expected`; theorems `C03_*_expected*`), the Spec's list -/
+def runDoc (fmt doc : String) : Option (Outcome Pairs × Option Pairs) :=
   match fmt with
   | "plock" =>
     match doc.splitOn ";" with
@@ -93,44 +107,44 @@ def runDoc (fmt doc : String) : Option (Outcome (List (List Char × List Char)))
       let ps := (es.filter (· ≠ "")).mapM fun e => match fieldsOf e with
         | some [p, n, v, c] => some (⟨p, n, v, c⟩ : PackageLock.LPkg)
         | _ => none
-      ps.map fun ps => match PackageLock.extract ⟨some ps, []⟩ with
+      ps.map fun ps => (match PackageLock.extract ⟨some ps, []⟩ with
         | .ok ds => .ok (ds.map fun d => (d.name, d.version))
         | .err => .err
-        | .panic => .panic
+        | .panic => .panic, some ((PackageLock.expected ⟨some ps, []⟩).map fun e => (e.2.name, e.2.version)))
     | "d" :: nroots :: ts =>
       match nroots.toNat? with
       | some n => match parseForest n (ts.filter (· ≠ "")) with
         | some (ds, []) => some (match PackageLock.extract ⟨none, ds⟩ with
           | .ok xs => .ok (xs.map fun d => (d.name, d.version))
           | .err => .err
-          | .panic => .panic)
+          | .panic => .panic, some ((PackageLock.expected ⟨none, ds⟩).map fun e => (e.2.name, e.2.version)))
         | _ => none
       | none => none
     | _ => none
   | "composer" =>
     match doc.splitOn "|" with
     | [a, b] => match nvList a ",", nvList b "," with
-      | some x, some y => some (nvOut (Composer.extract ⟨x, y⟩))
+      | some x, some y => some (nvOut (Composer.extract ⟨x, y⟩), none)
       | _, _ => none
     | _ => none
-  | "cargo" => (nvList doc ",").map fun x => nvOut (Cargo.extract x)
-  | "poetry" => (nvList doc ",").map fun x => nvOut (Poetry.extract x)
+  | "cargo" => (nvList doc ",").map fun x => (nvOut (Cargo.extract x), none)
+  | "poetry" => (nvList doc ",").map fun x => (nvOut (Poetry.extract x), none)
   | "pipfile" =>
     match doc.splitOn "|" with
     | [a, b] => match kvList a ",", kvList b "," with
       | some x, some y => some (match Pipfile.extract ⟨x, y⟩ with
         | .ok ps => nvOut ps
         | .err => .err
-        | .panic => .panic)
+        | .panic => .panic, some (nvPairs ((Pipfile.expected ⟨x, y⟩).map (·.2))))
       | _, _ => none
     | _ => none
   | "pkgslock" =>
     let fws := (listOf doc "|").mapM fun f => match f.splitOn "=" with
-      | [k, es] => match charsOfHex (if k = "" then "-" else k), kvList es "," with
+      | [k, es] => match charsOfHex (if k = "" then "-" else k), tripleList es with
         | some k, some es => some (k, es)
         | _, _ => none
       | _ => none
-    fws.map fun d => nvOut (PackagesLock.extract d)
+    fws.map fun (d : PackagesLock.TDoc) => (nvOut (PackagesLock.extract d.toDoc), some (nvPairs (PackagesLock.expectedT d)))
   | "gomod" =>
     match doc.splitOn "|" with
     | [rq, rp, gv, tc] =>
@@ -138,7 +152,7 @@ def runDoc (fmt doc : String) : Option (Outcome (List (List Char × List Char)))
         | some [a, b, c, d] => some (⟨a, b, c, d⟩ : GoMod.Replace)
         | _ => none
       match kvList rq ",", reps, charsOfHex (if gv = "" then "-" else gv), charsOfHex (if tc = "" then "-" else tc) with
-      | some rq, some reps, some gv, some tc => some (nvOut (GoMod.extract ⟨rq, reps, gv, tc⟩))
+      | some rq, some reps, some gv, some tc => some (nvOut (GoMod.extract ⟨rq, reps, gv, tc⟩), some (nvPairs (GoMod.expected ⟨rq, reps, gv, tc⟩)))
       | _, _, _, _ => none
     | _ => none
   | _ => none
@@ -476,7 +490,9 @@ def handle (line : String) : String :=
       | some reply => if x.startsWith "R:" then reply else "bad-op"
       | none =>
         match runDoc fmt x with
-        | some o => s!"pk={fmtOutcome o} spec={spec} src=gen"
+        | some (o, some sp) => if expect = "?" then s!"pk={fmtOutcome o} spec={spec} src=gen" else
+            s!"pk={fmtOutcome o} spec={fmtPairs sp} src=lean wf=1 same=1"   -- spec from the Spec's executable right-hand side
+        | some (o, none) => s!"pk={fmtOutcome o} spec={spec} src=gen"
         | none => "bad-op"
     | _ => "bad-op"
   | _ => "bad-op"
